@@ -20,6 +20,21 @@ Always  : besides the random scenarios every rig (quick tier included) runs the 
           nested value) as single call (positional, keyword), notification and at every MultiCall position, so that the
           reply spans several 1024-byte reads of the HTTP body on the real-socket rigs.  The interpreted model sees the
           long payloads once per value (first rig); elsewhere they are judged by the monitor alone.
+Names   : method-name segments include private-looking ones (`_x`, `a._b`, `_w_`, `__x`, `x__`, `_`) for registered
+          FUNCTIONS (the server refuses `_`-segments only while walking a registered instance); dunder names (`__x__`,
+          `__`, `___`) and a function registered under "" are sent as out-of-domain ops (correspondence only).
+Reuse   : scenarios that KEEP helper objects across ops (`reuse_hand_written`, `gen_reuse`): one MultiCall called two
+          or three times with new jobs in between, a kept `ns = proxy.ns` used for several methods, a kept method
+          called several times, a kept `_notify` object (and a namespace under it), MultiCallMethod objects extended
+          by separate statements; plus odd uses (job called twice, attribute access without call, job touched after
+          its batch was sent, a job whose call raised left in the list).  Such ops are compiled to steps
+          (`Compiler`) that the real objects and the model's object heap (`e2e` op "script") both execute.
+Sized   : `sized_payloads`: bodies of 1 KiB (every alignment of a 7-byte multi-byte unit against the 1024 boundary),
+          64 KiB and, over the real sockets, more than 10 MiB (the do_POST read loop takes at most 10 MiB per read),
+          ASCII and non-ASCII, as argument, result, keyword, notification and batch member.
+Order   : dict key ORDER is not compared (JSON objects are unordered; Python's == ignores it); how often the real
+          backend changed the order of a rendered dict is measured and reported (`backend_key_order_changed`), not
+          alarmed on — see the header of lean/JRV/Properties/C01.lean.
 Mixed   : out-of-domain batches mixing fates (unknown method, arguments that do not bind, ordinary jobs, notifications)
           are run for correspondence with the model (`C01_batch_mixed`): per-position outcome and effect log.
 Assumed : the JSON codec laws `Backend.roundtrip` and `Backend.batch` — tested here against jsonrpclib.jdumps/jloads on
@@ -42,9 +57,20 @@ REQUIRED_THEOREMS = [
     "C01_request", "C01_single", "C01_single_jsonclass", "C01_kwargs", "C01_dotted", "C01_no_args", "C01_no_args_wire",
     "C01_falsy", "C01_raises", "C01_notify", "C01_notify_jsonclass", "C01_notify_jsonclass_full",
     "C01_batch", "C01_batch_all_notifications", "C01_batch_position", "C01_batch_mixed", "C01_batch_jsonclass",
-    "C01_batch_jsonclass_partial", "C01_methodParams_shape",
+    "C01_batch_jsonclass_partial", "C01_methodParams_shape", "C01_jobParams_shape",
+    # names built by attribute access; which names are refused; the empty name
+    "C01_notify_dotted", "C01_extendJobName", "C01_mkJob", "C01_dunder_test", "C01_empty_name_refused",
+    # kept helper objects
+    "C01_method_object_immutable", "C01_method_cells_never_change", "C01_job_object_extended", "C01_kept_namespace",
+    "C01_call_via_objects", "C01_addJob", "C01_addJobs", "C01_multicall_call", "C01_multicall_reuse",
+    "C01_multicall_keeps_on_failure",
+    # transports / server classes; satisfiability of the codec laws
+    "C01_over_wire", "C01_backend_exists",
+    # companions of the extracted facts (JRV/Properties/C01Gen.lean)
     "C01_gen_methodSendsArgsElseKwargs", "C01_gen_requestReturnsResult", "C01_gen_historyOrder",
     "C01_gen_multicallFormat", "C01_gen_multicallVersion", "C01_gen_iteratorPositional", "C01_gen_proxyOwnAttrs",
+    "C01_gen_proxyGetattrRefuses", "C01_gen_proxyGetattrReturns", "C01_gen_methodGetattr", "C01_gen_jobGetattr",
+    "C01_gen_multicallClearsJobs", "C01_gen_multicallGetattrAppends", "C01_gen_callReceiverPositional",
 ]
 
 J = impl.jsonrpclib.jsonrpc
@@ -147,17 +173,28 @@ def ident(rng):
     return rng.choice(IDENT_HEAD) + "".join(rng.choice(IDENT_TAIL) for _ in range(rng.randint(0, 5)))
 
 
-def segment(rng, allow_uni=True):
+def underscored(rng):
+    """Names with leading / trailing underscores that are NOT dunder names: private-looking (`_x`), single-underscore
+    wrapped (`_x_`), half-dunder (`__x`, `x__`, `__x_`, `_x__`) and the bare `_`.  ServerProxy.__getattr__ proxies all
+    of them (only `__x__` is refused); the server serves them when they name a registered *function* (it refuses
+    `_`-segments only while walking the attributes of a registered instance)."""
+    x = ident(rng)
+    return rng.choice(["_" + x, "_" + x + "_", "__" + x, x + "__", "__" + x + "_", "_" + x + "__", "_", x + "_", "_%s_%s" % (x, x)])
+
+
+def segment(rng, allow_uni=True, underscore=False):
     excl = excluded_names()
     for _ in range(50):
         r = rng.random()
-        if r < 0.6 or not allow_uni:
+        if underscore and r < 0.3:
+            s = underscored(rng)
+        elif r < 0.6 or not allow_uni:
             s = ident(rng)
         elif r < 0.9:
             s = rng.choice(UNI)
         else:
             s = "".join(rng.choice(UNI + list(IDENT_TAIL)) for _ in range(rng.randint(1, 3)))
-        if s and "." not in s and not s.startswith("_") and s not in excl and not is_dunder(s):
+        if s and "." not in s and (underscore or not s.startswith("_")) and s not in excl and not is_dunder(s):
             return s
     return "m" + ident(rng)
 
@@ -186,11 +223,15 @@ def gen_callables(rng, n):
         target = "func" if rng.random() < 0.6 else "attr"
         depth = rng.choice([1, 1, 2, 3])
         for _try in range(20):
-            segs = [segment(rng, allow_uni=True) for _ in range(depth)]
+            # leading underscores only in names of registered functions (see `underscored`)
+            segs = [segment(rng, allow_uni=True, underscore=(target == "func")) for _ in range(depth)]
             name = ".".join(segs)
             # an attribute path must not pass through another callable's leaf twice; keep names prefix-free
-            if all(not (name == u or name.startswith(u + ".") or u.startswith(name + ".")) for u in used):
+            # (a dotted name that as a whole starts and ends with "__" is a dunder name for `getattr(proxy, name)`)
+            if all(not (name == u or name.startswith(u + ".") or u.startswith(name + ".")) for u in used) and not is_dunder(name):
                 break
+        else:
+            name = "m" + ident(rng) + str(len(used))
         used.add(name)
         r = rng.random()
         if r < 0.08:
@@ -270,6 +311,18 @@ def gen_odd(rng, callables, suj=False):
                 {"notify": rng.random() < 0.3, "path": client_path(rng, c["name"]), "args": [1], "kwargs": {}},
                 {"notify": rng.random() < 0.3, "path": client_path(rng, c["name"]), "args": [[BAD_BEAN]], "kwargs": {}}]}
         return {"op": "odd", "kind": kind, "path": client_path(rng, c["name"]), "args": [BAD_BEAN], "kwargs": {}}
+    if rng.random() < 0.15:
+        # the edges of the name domain: the empty method name (refused by the server with -32600 whatever is registered:
+        # C01_empty_name_refused), the shortest dunder names, a private segment below a registered instance (-32601)
+        which = rng.choice(["empty", "dunder", "private-attr", "empty-batch"])
+        if which == "empty":
+            return {"op": "odd", "kind": rng.choice(["call", "notify"]), "path": [""], "args": [1], "kwargs": {}}
+        if which == "empty-batch":
+            return {"op": "odd", "kind": "batch", "jobs": [{"notify": False, "path": [""], "args": [], "kwargs": {}},
+                                                          {"notify": False, "path": client_path(rng, c["name"]), "args": [], "kwargs": {}}]}
+        if which == "dunder":
+            return {"op": "odd", "kind": "call", "path": [rng.choice(["__", "___", "____", "__a__", "__.__"])], "args": [], "kwargs": {}}
+        return {"op": "odd", "kind": "call", "path": c["name"].split(".")[:1] + ["_" + ident(rng)], "args": [], "kwargs": {}}
     if r < 0.25:
         return {"op": "odd", "kind": "call", "path": ["nosuch" + ident(rng)], "args": [1], "kwargs": {}}
     if r < 0.4:
@@ -340,6 +393,170 @@ def gen_scenario(rng, force=None):
     sc_["callables"] = callables
     sc_["ops"] = ops
     return sc_
+
+
+# ------------------------------------------------------------------------------------------------
+# scenarios that REUSE helper objects across ops
+
+def reuse_hand_written():
+    """One scenario per kind of kept object (every version pair is added by the caller)."""
+    cs = [
+        {"name": "add", "target": "func", "sig": [["a", "b"], 0, False, False], "beh": ["ret", 3]},
+        {"name": "mul", "target": "func", "sig": [["a", "b"], 0, False, False], "beh": ["ret", 12]},
+        {"name": "ns.a", "target": "attr", "sig": [[], 0, True, True], "beh": ["ret", "a1"]},
+        {"name": "ns.b", "target": "attr", "sig": [[], 0, True, True], "beh": ["ret", "b2"]},
+        {"name": "ns.sub.echo", "target": "attr", "sig": [[], 0, True, True], "beh": ["rett", [1, [2]]]},
+        {"name": "ping", "target": "func", "sig": [[], 0, False, False], "beh": ["ret", None]},
+        {"name": "_hidden", "target": "func", "sig": [["x"], 0, False, False], "beh": ["ret", 42]},
+        {"name": "pkg._impl_.run__", "target": "func", "sig": [[], 0, True, True], "beh": ["ret", [True]]},
+    ]
+
+    def call(i, args=(), kwargs=None, **kw):
+        return dict({"op": "call", "callee": i, "path": cs[i]["name"].split("."), "args": list(args),
+                     "kwargs": kwargs or {}, "tup": False}, **kw)
+
+    def job(i, args=(), kwargs=None, notify=False, **kw):
+        return dict({"notify": notify, "callee": i, "path": cs[i]["name"].split("."), "args": list(args),
+                     "kwargs": kwargs or {}, "tup": False}, **kw)
+    ops = [
+        # one MultiCall called twice, then a third time, new jobs in between
+        {"op": "batch", "mc": "mc0", "jobs": [job(0, [1, 2])]},
+        {"op": "batch", "mc": "mc0", "jobs": [job(1, [3, 4])]},
+        # ns = proxy.ns; ns.a(1); ns.b(2); ns.sub.echo()
+        call(2, [1], keep=["ns0", 1]),
+        call(3, [2], keep=["ns0", 1]),
+        call(4, keep=["ns0", 1]),
+        call(2, [], {"k": 1}, keep=["ns0", 1]),
+        # m = proxy.add; m(1, 2); m(3, 4)
+        call(0, [1, 2], keep=["m0", 1]),
+        call(0, [], {"a": 3, "b": 4}, keep=["m0", 1]),
+        # n = proxy._notify; n.ping(); n.add(1, 2); nn = n.ns; nn.a(); nn.b()
+        dict(call(5), op="notify", nkeep="n0"),
+        dict(call(0, [1, 2]), op="notify", nkeep="n0"),
+        dict(call(2, [0]), op="notify", nkeep="n0", keep=["nns0", 1]),
+        dict(call(3, [0]), op="notify", nkeep="n0", keep=["nns0", 1]),
+        # a MultiCallMethod obtained once and extended twice by separate statements; the MultiCall from above again
+        {"op": "batch", "mc": "mc0", "jobs": [job(4, ["x"], stmts=True), job(5, notify=True), job(4, [], {"k": []}, notify=True, stmts=True)]},
+        # names that start with an underscore (registered functions), through attribute access
+        call(6, [41]), call(7, [1]), call(7, [], {"k": 1}, keep=["pk0", 2]), call(7, [2], keep=["pk0", 2]),
+        {"op": "batch", "mc": "mc0", "jobs": [job(6, [41]), job(7, [], {}, stmts=True)]},
+    ]
+    out = []
+    for cver in (1.0, 2.0):
+        for sver in (1.0, 2.0):
+            uj = cver != sver
+            out.append({"cver": cver, "carg": None, "cuj": uj, "sver": sver, "suj": uj, "mver": cver, "muj": uj,
+                        "callables": cs, "ops": ops})
+    return out
+
+
+def gen_reuse(rng):
+    """A random scenario made of threads, each REUSING one kept helper object, interleaved on one proxy/History."""
+    cuj, suj = rng.random() < 0.3, rng.random() < 0.3
+    sc_ = {"cver": rng.choice([1.0, 2.0]), "carg": rng.choice([None, None, 1.0, 2.0]), "cuj": cuj,
+           "sver": rng.choice([1.0, 2.0]), "suj": suj, "mver": rng.choice([1.0, 2.0]), "muj": cuj}
+    jc_keys = not (cuj or suj)
+    # a namespace with several leaves (so that one kept `ns` serves several methods), plus ordinary callables
+    target = "func" if rng.random() < 0.5 else "attr"
+    us = target == "func"
+    ns = segment(rng, True, us)
+    sub = segment(rng, True, us)
+    leaves = []
+    while len(leaves) < 3:
+        x = segment(rng, True, us)
+        if x not in leaves and x != sub:
+            leaves.append(x)
+    names = ["%s.%s" % (ns, leaves[0]), "%s.%s" % (ns, leaves[1]), "%s.%s.%s" % (ns, sub, leaves[2]), "%s.%s.%s" % (ns, sub, leaves[0])]
+    callables = []
+    for nm in names:
+        beh = ["ret", value(rng)] if rng.random() < 0.85 else ["ret", rng.choice(FALSY)]
+        callables.append({"name": nm, "target": target, "sig": [[], 0, True, True] if rng.random() < 0.7 else gen_sig(rng), "beh": beh})
+    for c in gen_callables(rng, rng.randint(1, 2)):
+        if all(not (c["name"] == u["name"] or c["name"].startswith(u["name"] + ".") or u["name"].startswith(c["name"] + ".")
+                    or c["name"].split(".")[0] == ns) for u in callables):
+            callables.append(c)
+
+    def mk(i, **kw):
+        c = callables[i]
+        a, k = gen_args(rng, c["sig"], jc_keys)
+        return dict({"callee": i, "path": c["name"].split("."), "args": a, "kwargs": k, "tup": rng.random() < 0.2}, **kw)
+    threads = []
+    kinds = rng.sample(["mc", "ns", "ns2", "method", "notifier", "mc"], rng.randint(1, 3))
+    for t, kind in enumerate(kinds):
+        v = "%s%d" % (kind, t)
+        ops = []
+        if kind == "mc":
+            for _ in range(rng.randint(2, 3)):
+                jobs = []
+                for _j in range(rng.randint(1, 4)):
+                    j = mk(rng.randrange(len(callables)), notify=rng.random() < 0.3)
+                    if len(j["path"]) > 1 and rng.random() < 0.5:
+                        j["stmts"] = True
+                    jobs.append(j)
+                ops.append({"op": "batch", "mc": v, "jobs": jobs})
+        elif kind == "ns":
+            for _ in range(rng.randint(2, 4)):
+                ops.append(dict(mk(rng.randrange(4), keep=[v, 1]), op="call"))
+        elif kind == "ns2":
+            for _ in range(rng.randint(2, 3)):
+                ops.append(dict(mk(rng.choice([2, 3]), keep=[v, 2]), op="call"))
+        elif kind == "method":
+            i = rng.randrange(len(callables))
+            for _ in range(rng.randint(2, 3)):
+                ops.append(dict(mk(i, keep=[v, len(callables[i]["name"].split("."))]), op="call"))
+        else:
+            for _ in range(rng.randint(2, 3)):
+                i = rng.randrange(len(callables))
+                o = dict(mk(i, nkeep=v), op="notify")
+                if i < 4 and rng.random() < 0.5:
+                    o["keep"] = [v + "ns", 1]
+                ops.append(o)
+        threads.append(ops)
+    if rng.random() < 0.35:
+        threads.append(gen_odd_scripts(rng, callables))
+    # interleave, keeping the order inside each thread
+    ops = []
+    while any(threads):
+        t = rng.choice([t for t in threads if t])
+        ops.append(t.pop(0))
+    sc_["callables"] = callables
+    sc_["ops"] = ops
+    sc_["reuse"] = True
+    return sc_
+
+
+def gen_odd_scripts(rng, callables):
+    """Uses of the helper objects the property does not speak about (correspondence with the model's object heap only)."""
+    def nm():
+        return rng.choice(callables)["name"].split(".")
+    r = rng.random()
+    v, j = "omc%d" % rng.randrange(10 ** 6), "oj%d" % rng.randrange(10 ** 6)
+
+    def get_chain(dst, src, path):
+        steps, cur = [], src
+        for i, seg in enumerate(path):
+            d = dst if i == len(path) - 1 else "%s_%d" % (dst, i)
+            steps.append(["get", d, cur, seg])
+            cur = d
+        return steps
+    if r < 0.2:      # a job called twice: the second call replaces the parameters
+        steps = [["mc", v]] + get_chain(j, v, nm()) + [["call", "_", j, [1], {}], ["call", "_", j, [], {"k": 2}], ["call", "_", v, [], {}]]
+        return [{"op": "odd", "kind": "script", "steps": steps, "batch": True}]
+    if r < 0.4:      # attribute access alone registers a job (parameters [])
+        steps = [["mc", v]] + get_chain(j, v, nm()) + get_chain(j + "b", v, nm()) + [["call", "_", j + "b", [0], {}], ["call", "_", v, [], {}]]
+        return [{"op": "odd", "kind": "script", "steps": steps, "batch": True}]
+    if r < 0.6:      # a job extended and called after its batch was sent: detached, the next batch is empty (None)
+        p1 = nm()
+        return [{"op": "odd", "kind": "script", "steps": [["mc", v]] + get_chain(j, v, p1) + [["call", "_", j, [], {}], ["call", "_", v, [], {}]], "batch": True},
+                {"op": "odd", "kind": "script", "steps": [["get", j + "x", j, "late"], ["call", "_", j, [1], {}], ["call", "_", v, [], {}]], "batch": True},
+                {"op": "odd", "kind": "script", "steps": get_chain(j + "n", v, nm()) + [["call", "_", j + "n", [], {}], ["call", "_", v, [], {}]], "batch": True}]
+    if r < 0.8:      # both argument styles on a job: ProtocolError, the job stays in the list with parameters []
+        return [{"op": "odd", "kind": "script", "steps": [["mc", v]] + get_chain(j, v, nm()) + [["call", "_", j, [1], {"k": 2}]]},
+                {"op": "odd", "kind": "script", "steps": get_chain(j + "n", v, nm()) + [["call", "_", j + "n", [], {}], ["call", "_", v, [], {}]], "batch": True}]
+    # a kept MultiCallNotify; an empty MultiCall called (None)
+    return [{"op": "odd", "kind": "script", "steps": [["mc", v], ["call", "_", v, [], {}]], "batch": True},
+            {"op": "odd", "kind": "script", "steps": [["get", j + "n", v, "_notify"]] + get_chain(j, j + "n", nm()) + [["call", "_", j, [], {}]]
+             + get_chain(j + "2", j + "n", nm()) + [["call", "_", j + "2", [0], {}], ["call", "_", v, [], {}]], "batch": True}]
 
 
 def effective_client_version(s):
@@ -522,6 +739,125 @@ def walk(obj, path):
     return obj
 
 
+# ------------------------------------------------------------------------------------------------
+# programs over KEPT helper objects
+#
+# An op may name variables that live for the whole scenario (optional fields; an op without them builds every helper
+# object afresh, as one expression):
+#   call / notify   "keep": [var, k]   var = the object reached by path[:k] (a _Method), created by the first op that
+#                                      names it and REUSED by the later ones; the remaining path[k:] is walked from it
+#                   "nkeep": var       (notify only) var = proxy._notify, kept
+#   batch           "mc": var          var = MultiCall(proxy, config=mcfg), kept: called again by every later batch op
+#                                      that names it, with the jobs added since
+#                   job "stmts": true  j = getattr(mc, path[0]); j.<seg> for the other segments as separate statements
+#                                      whose results are dropped (MultiCallMethod.__getattr__ extends j itself); j(...)
+#   odd "script"    "steps": [...]     raw steps (correspondence with the model only)
+# Such an op is compiled to steps   ["mc", dst] | ["get", dst, src, name] | ["call", dst, src, args, kwargs]
+# which the real side executes on the real objects and the model on its object heap (`e2e` op "script").
+
+def uses_vars(op):
+    if op.get("keep") or op.get("nkeep") or op.get("mc"):
+        return True
+    if op["op"] == "odd" and op.get("kind") == "script":
+        return True
+    return any(j.get("stmts") for j in op.get("jobs") or [])
+
+
+def op_vars(op):
+    out = set()
+    if op.get("keep"):
+        out.add(op["keep"][0])
+    for f in ("nkeep", "mc"):
+        if op.get(f):
+            out.add(op[f])
+    if op["op"] == "odd" and op.get("kind") == "script":
+        for st in op["steps"]:
+            out.update(x for x in st[1:3] if isinstance(x, str) and x != "proxy")
+    return out
+
+
+class Compiler(object):
+    """Turns ops into steps; remembers which variables are bound (so a sub-sequence of the ops still compiles)."""
+
+    def __init__(self):
+        self.bound = set()
+        self.n = 0
+
+    def tmp(self):
+        self.n += 1
+        return "_t%d" % self.n
+
+    def chain(self, steps, base, path, into=None):
+        cur = base
+        for i, seg in enumerate(path):
+            dst = into if (into is not None and i == len(path) - 1) else self.tmp()
+            steps.append(["get", dst, cur, seg])
+            cur = dst
+        return cur
+
+    def compile(self, op):
+        kind = op["kind"] if op["op"] == "odd" else op["op"]
+        steps = []
+        if kind == "script":
+            return [list(st) for st in op["steps"]]
+        if kind in ("call", "notify"):
+            args, kwargs = send_args(op)
+            base = "proxy"
+            if kind == "notify":
+                nk = op.get("nkeep")
+                if nk:
+                    if nk not in self.bound:
+                        steps.append(["get", nk, "proxy", "_notify"])
+                        self.bound.add(nk)
+                    base = nk
+                else:
+                    base = self.chain(steps, "proxy", ["_notify"])
+            path = list(op["path"])
+            if op.get("keep"):
+                var, k = op["keep"]
+                if var not in self.bound:
+                    self.chain(steps, base, path[:k], into=var)
+                    self.bound.add(var)
+                cur = self.chain(steps, var, path[k:])
+            else:
+                cur = self.chain(steps, base, path)
+            steps.append(["call", "_r", cur, list(args), kwargs])
+            return steps
+        mc = op.get("mc") or self.tmp()
+        if mc not in self.bound:
+            steps.append(["mc", mc])
+            self.bound.add(mc)
+        for j in op["jobs"]:
+            args, kwargs = send_args(j)
+            base = self.chain(steps, mc, ["_notify"]) if j["notify"] else mc
+            path = list(j["path"])
+            if j.get("stmts"):
+                jv = self.chain(steps, base, path[:1])
+                for seg in path[1:]:
+                    steps.append(["get", self.tmp(), jv, seg])
+                cur = jv
+            else:
+                cur = self.chain(steps, base, path)
+            steps.append(["call", "_r", cur, list(args), kwargs])
+        steps.append(["call", "_r", mc, [], {}])
+        return steps
+
+
+def exec_steps(env, steps, proxy, mcfg):
+    """The steps on the real objects; the value of the last step."""
+    last = None
+    for st in steps:
+        if st[0] == "mc":
+            env[st[1]] = J.MultiCall(proxy, config=mcfg)
+            last = None
+        elif st[0] == "get":
+            env[st[1]] = getattr(env[st[2]], st[3])
+            last = None
+        else:
+            last = env[st[2]](*st[3], **st[4])
+    return last
+
+
 def run_real(rig, s):
     """Runs the scenario on the real code.  Returns the records of the ops and the History."""
     del rig.log[:]
@@ -531,12 +867,23 @@ def run_real(rig, s):
     proxy = rig.proxy(s, hist)
     mcfg = impl.jsonrpclib.config.Config(version=s["mver"], use_jsonclass=s["muj"])
     records = []
+    env = {"proxy": proxy}
+    comp = Compiler()
     try:
         for op in s["ops"]:
             l0, c0 = len(rig.log), len(rig.captured)
             h0 = (len(hist.requests), len(hist.responses))
             kind = op["kind"] if op["op"] == "odd" else op["op"]
-            if kind in ("call", "notify"):
+            if uses_vars(op):
+                steps = comp.compile(op)
+                k, v = impl.outcome(exec_steps, env, steps, proxy, mcfg)
+                rec = {"outcome": (k, v)}
+                if k == "ok" and isinstance(v, J.MultiCallIterator):
+                    kl, n = impl.outcome(len, v)
+                    rec["len"] = (kl, n)
+                    rec["items"] = [impl.outcome(v.__getitem__, i) for i in range(n)] if kl == "ok" else []
+                    rec["iter"] = impl.outcome(lambda v=v: list(v))
+            elif kind in ("call", "notify"):
                 args, kwargs = send_args(op)
                 base = proxy if kind == "call" else proxy._notify
 
@@ -720,8 +1067,10 @@ def enc_registry(desc):
         "custom": None})
 
 
-def enc_op(op):
+def enc_op(op, comp=None):
     kind = op["kind"] if op["op"] == "odd" else op["op"]
+    if uses_vars(op):
+        return ["script", comp.compile(op)]
     if kind in ("call", "notify"):
         args, kwargs = send_args(op)
         return [kind, list(op["path"]), list(args), kwargs]
@@ -733,10 +1082,11 @@ def enc_op(op):
 
 
 def model_line(s):
+    comp = Compiler()
     return "e2e L6 %s %s %s %s %s %s" % (
         sc.enc_cfg(s["cver"], s["cuj"]), pyval.enc(None if s["carg"] is None else int(round(s["carg"] * 10))),
         sc.enc_cfg(s["sver"], s["suj"]), enc_registry(registry_desc(s["callables"])), sc.enc_cfg(s["mver"], s["muj"]),
-        pyval.enc([enc_op(op) for op in s["ops"]]))
+        pyval.enc([enc_op(op, comp) for op in s["ops"]]))
 
 
 _UUID = re.compile(r"^[0-9a-f]{8}-[0-9a-f]{4}-[0-9a-f]{4}-[0-9a-f]{4}-[0-9a-f]{12}$|^fresh#\d+$")
@@ -804,14 +1154,19 @@ def canon_outcome_model(t):
     return "err " + t[1]
 
 
+def batch_like(op):
+    """The op ends with the call of a MultiCall (its value is None or an iterator)."""
+    kind = op["kind"] if op["op"] == "odd" else op["op"]
+    return kind == "batch" or (kind == "script" and bool(op.get("batch")))
+
+
 def project_real(s, records, hist):
     desc = registry_desc(s["callables"])
     ids = Ids()
     ops = []
     for op, rec in zip(s["ops"], records):
         k, v = rec["outcome"]
-        kind = op["kind"] if op["op"] == "odd" else op["op"]
-        if kind == "batch" and k == "ok":
+        if batch_like(op) and k == "ok":
             if v is None:
                 o = "ok N"
             else:
@@ -837,9 +1192,8 @@ def project_model(s, line):
     ops = []
     for op, part in zip(s["ops"], parts[:-1]):
         out_t, eff_t = part[1]
-        kind = op["kind"] if op["op"] == "odd" else op["op"]
         o = pyval.from_tree(out_t)
-        if kind == "batch" and o[0] == "ok":
+        if batch_like(op) and o[0] == "ok":
             if o[1] is None:
                 oc = "ok N"
             else:
@@ -872,6 +1226,9 @@ def _check_backend_laws(ctx, values, batches):
         if k != "ok" or not isinstance(t, str) or t == "" or not strict_eq(jl(t), norm_model(v)):
             bad += 1
             ctx.disagree({"law": "roundtrip", "value": repr(v)[:200]}, repr((k, t))[:200], "parse(render v) = normalise v", component="backend-law")
+        elif key_orders(jl(t)) != key_orders(norm_model(v)):
+            # the law as the model states it is ORDERED; the property is not (see the module docstring): counted only
+            ctx.extra["backend_key_order_changed"] = ctx.extra.get("backend_key_order_changed", 0) + 1
     for vs in batches:
         ts = [jd(v) for v in vs]
         body = "[ {0} ]".format(",".join(ts))
@@ -880,6 +1237,15 @@ def _check_backend_laws(ctx, values, batches):
             bad += 1
             ctx.disagree({"law": "batch", "values": repr(vs)[:200]}, repr((k, r))[:200], "parse('[ a,b ]') = [normalise ..]", component="backend-law")
     return bad
+
+
+def key_orders(v):
+    """The key sequences of all dicts of a value, in traversal order."""
+    if isinstance(v, (list, tuple)):
+        return [key_orders(x) for x in v]
+    if isinstance(v, dict):
+        return [list(v.keys())] + [key_orders(x) for x in v.values()]
+    return None
 
 
 def norm_model(v):
@@ -930,7 +1296,13 @@ def run_group(ctx, rig_spec, scenarios, tmpdir, lines, pending):
                     records, hist = run_real(rig, s)
                 case = {"rig": list(rig_spec), "scenario": s}
                 found = monitor(s, records, hist)
-                if found:
+                if found and s.get("sized"):
+                    # megabytes are not written into the replay file: the scenario is named, with the failing op
+                    m = re.match(r"op (\d+) ", found[0][0])
+                    case = {"rig": list(rig_spec), "scenario": {"sized_ref": s["long"], "ops": [int(m.group(1))] if m else None}}
+                    if m:
+                        found = [(re.sub(r"^op \d+ ", "op 0 ", t), k) for t, k in found if t.startswith("op %s " % m.group(1))]
+                elif found:
                     # the replay is the failing call alone whenever it fails on its own
                     case, found = shrink(rig, rig_spec, s, found)
                 for msg, key in found:
@@ -945,7 +1317,15 @@ def run_group(ctx, rig_spec, scenarios, tmpdir, lines, pending):
                 ctx.count(case_repr={"rig": label, "versions": [effective_client_version(s), s["sver"]],
                                      "ops": [op["op"] for op in s["ops"]]},
                           nontrivial_key=scenario_key(s, label), kind="scenario/" + label)
+                for c in s["callables"]:
+                    if any(seg.startswith("_") for seg in c["name"].split(".")):
+                        ctx.hist["name/underscore-segment"] += 1
                 for op in s["ops"]:
+                    for f in ("mc", "keep", "nkeep"):
+                        if op.get(f):
+                            ctx.hist["reuse/" + f] += 1
+                    if any(j.get("stmts") for j in op.get("jobs") or []):
+                        ctx.hist["reuse/job-extended-by-statements"] += 1
                     if op["op"] == "batch":
                         ctx.hist["op/batch/%d" % len(op["jobs"])] += 1
                         if all(j["notify"] for j in op["jobs"]):
@@ -957,7 +1337,7 @@ def run_group(ctx, rig_spec, scenarios, tmpdir, lines, pending):
                     else:
                         ctx.hist["op/" + op["op"]] += 1
                 if s.get("long"):
-                    ctx.hist["long-payload/%s/%s" % (transport, s["long"])] += 1
+                    ctx.hist["%s-payload/%s/%s" % ("sized" if s.get("sized") else "long", transport, s["long"])] += 1
                 ctx.hist["versions/c%s-s%s" % (effective_client_version(s), s["sver"])] += 1
                 ctx.hist["jsonclass/c%d-s%d" % (s["cuj"], s["suj"])] += 1
         finally:
@@ -970,12 +1350,25 @@ def shrink(rig, rig_spec, s, found):
     m = re.match(r"op (\d+) ", found[0][0])
     if not m or len(s["ops"]) == 1 and s["ops"][0]["op"] != "batch":
         return case, found
-    op = s["ops"][int(m.group(1))]
+    if s.get("sized"):
+        return case, found  # one op per payload already; re-running multi-megabyte payloads buys nothing
+    idx = int(m.group(1))
+    op = s["ops"][idx]
     candidates = []
-    if op["op"] == "batch":
-        candidates.extend(dict(s, ops=[dict(op, jobs=[j])]) for j in op["jobs"])
-    if len(s["ops"]) > 1:
-        candidates.append(dict(s, ops=[op]))
+    vs = op_vars(op)
+    if vs:
+        # the failing op uses kept objects: the ops up to it that share one of them (order kept), nothing else
+        group = [o for o in s["ops"][:idx + 1] if op_vars(o) & vs]
+        if len(group) < len(s["ops"]):
+            candidates.append(dict(s, ops=group))
+        if len(group) > 2:
+            candidates.insert(0, dict(s, ops=[group[0], group[-1]]))
+            candidates.insert(0, dict(s, ops=group[-2:]))
+    else:
+        if op["op"] == "batch":
+            candidates.extend(dict(s, ops=[dict(op, jobs=[j])]) for j in op["jobs"])
+        if len(s["ops"]) > 1:
+            candidates.append(dict(s, ops=[op]))
     for cand in candidates:
         try:
             with raw_backend(rig_spec[2] == "raw"):
@@ -1080,6 +1473,54 @@ def long_payloads():
     return out
 
 
+# Sized payloads: bodies of about 1 KiB, 64 KiB and more than 10 MiB (the server's do_POST reads the body in pieces of at
+# most max_chunk_size = 10 MiB until Content-Length bytes are in; the client reads the reply 1024 bytes at a time).
+# The non-ASCII text repeats the 7-byte unit é€é (2+3+2 bytes): 7 is coprime to 1024, so over 7 consecutive boundaries
+# 1024*k every offset inside the unit — in particular inside each multi-byte sequence — falls on a boundary.
+MB_UNIT = "é€é"
+
+
+def sized_values(big):
+    out = [("1k-ascii", "x" * 1024)]
+    out += [("1k-mb%d" % r, "a" * r + MB_UNIT * 147) for r in range(7)]
+    out += [("64k-ascii", "y" * 65536), ("64k-mb", "a" + MB_UNIT * 9363)]
+    if big:
+        out += [("11M-ascii", "z" * (11 * 1024 * 1024)), ("11M-mb", "ab" + MB_UNIT * (11 * 1024 * 1024 // 7 + 1))]
+    return out
+
+
+def sized_payloads(rig_spec, big):
+    """
+    One scenario per sized value: the value as positional argument (small result), as result (no argument), as keyword
+    and notification parameter, and inside a MultiCall batch.  The values above 10 MiB are sent over the real-socket rigs
+    only, the non-ASCII one only with the non-escaping backend (escaped it is ASCII on the wire, three times as long).
+    These scenarios are judged by the monitor alone (the interpreted model is not fed megabytes).
+    """
+    out = []
+    for n, (label, v) in enumerate(sized_values(big)):
+        huge = label.startswith("11M")
+        if huge and (rig_spec[1] == "loop" or (label == "11M-mb" and rig_spec[2] != "raw")):
+            continue
+        cs = [{"name": "size", "target": "func", "sig": [[], 0, True, True], "beh": ["ret", len(v)]},
+              {"name": "fetch", "target": "func", "sig": [[], 0, True, True], "beh": ["ret", v]},
+              {"name": "ns.keep", "target": "attr", "sig": [["a"], 1, False, True], "beh": ["ret", [v[:100], None]]}]
+
+        def job(callee, notify, args, kwargs):
+            return {"notify": notify, "callee": callee, "path": cs[callee]["name"].split("."), "args": args,
+                    "kwargs": kwargs, "tup": False}
+        ops = [{"op": "call", "callee": 0, "path": ["size"], "args": [v], "kwargs": {}, "tup": False},
+               {"op": "call", "callee": 1, "path": ["fetch"], "args": [], "kwargs": {}, "tup": False},
+               {"op": "batch", "jobs": [job(0, False, [0], {}), job(0, False, [v], {}), job(2, True, [], {"a": v}), job(0, False, [], {})]}]
+        if not huge:
+            ops += [{"op": "call", "callee": 2, "path": ["ns", "keep"], "args": [], "kwargs": {"a": v, "é": [v]}, "tup": False},
+                    {"op": "notify", "callee": 0, "path": ["size"], "args": [v, 1], "kwargs": {}, "tup": False},
+                    {"op": "batch", "jobs": [job(1, False, [], {}), job(1, False, [v], {})]}]
+        cver, sver = ((2.0, 2.0), (1.0, 1.0), (1.0, 2.0), (2.0, 1.0))[n % 4]
+        out.append({"cver": cver, "carg": None, "cuj": False, "sver": sver, "suj": False, "mver": cver, "muj": False,
+                    "callables": cs, "ops": ops, "long": label, "sized": True, "long_model": label.startswith("1k")})
+    return out
+
+
 def run(ctx):
     ctx.rule = ("scenarios = (client version argument x client/server configuration version x use_jsonclass flags, a "
                 "registry of 1-4 instrumented callables (functions and instance attributes, identifier / dotted / Unicode "
@@ -1103,9 +1544,14 @@ def run(ctx):
             else:
                 count = ctx.budget(80, 800)
             scenarios = [gen_scenario(rng) for _ in range(count)]
-            # every rig sees the hand-written cases and the long payloads; non-ASCII payloads over real sockets (replies
-            # spanning several reads) are what exposes codec / framing changes
-            scenarios = hw + long_payloads() + scenarios
+            # scenarios that keep helper objects (one MultiCall called several times, a kept proxy.ns / method /
+            # _notify object, MultiCallMethod extended by statements)
+            rcount = ctx.budget(150, 2500) if rig_spec == ("bare", "loop", "std") else ctx.budget(25, 250)
+            rrng = ctx.derive_rng("reuse/%s/%s/%s" % rig_spec)
+            reuse = reuse_hand_written() + [gen_reuse(rrng) for _ in range(rcount)]
+            # every rig sees the hand-written cases, the long and the sized payloads; non-ASCII payloads over real
+            # sockets (bodies spanning several reads, in both directions) are what exposes codec / framing changes
+            scenarios = hw + reuse + long_payloads() + sized_payloads(rig_spec, big=True) + scenarios
             run_group(ctx, rig_spec, scenarios, tmpdir, lines, pending)
         # the codec laws on everything that was generated
         values, batches = [], []
@@ -1114,6 +1560,8 @@ def run(ctx):
                 if c["beh"][0] != "raise":
                     values.append(tuplify(c["beh"][1]) if c["beh"][0] == "rett" else c["beh"][1])
             for op in s["ops"]:
+                if op.get("kind") == "script":
+                    continue
                 for j in (op.get("jobs") or [op]):
                     a, kw = send_args(j)
                     values.append(tuple(a))
@@ -1140,6 +1588,9 @@ def run(ctx):
         model = project_model(s, line)
         if model is None:
             unmodelled += 1
+            ctx.extra.setdefault("unmodelled_samples", [])
+            if len(ctx.extra["unmodelled_samples"]) < 5:
+                ctx.extra["unmodelled_samples"].append({"why": line[:120], "ops": short(s["ops"], 300)})
             continue
         if model != real:
             detail_real, detail_model = real, model
@@ -1157,12 +1608,46 @@ def run(ctx):
         "JSON codec laws Backend.roundtrip / Backend.batch (hypotheses of every C01 theorem) tested against "
         "jsonrpclib.jdumps/jloads (CPython json, escaping and non-escaping) on %d generated values and %d MultiCall bodies: %d failures"
         % (ctx.extra["backend_law_values"], ctx.extra["backend_law_batches"], ctx.extra["backend_law_failures"]))
+    ctx.extra.setdefault("backend_key_order_changed", 0)
+    ctx.assumptions.append(
+        "dict key order: the model's equalities (PyVal.dict is an ordered list, Backend.roundtrip) hold for an "
+        "order-preserving backend; the property does not speak of key order (JSON objects are unordered, Python == "
+        "ignores it), so values, call arguments and documents are compared order-insensitively; the real backend "
+        "changed the key order of %d of the rendered values (informational, no alarm)" % ctx.extra["backend_key_order_changed"])
     ctx.assumptions.append(
         "Gate20 (check_for_errors lets a reply with jsonrpc = \"2.0\" through: float(\"2.0\") > 2.0 is false) is a hypothesis "
         "of the theorems for 2.0-form replies; validated by executing the model's `proxy` component on every run")
     ctx.assumptions.append(
-        "uuid4 ids are non-empty strings (hypothesis fresh ≠ \"\" of the theorems); HTTP transport = identity on texts "
-        "(C17/C19), validated here over real TCP and Unix sockets")
+        "uuid4 ids are non-empty strings (hypothesis fresh ≠ \"\" of the theorems); HTTP transport = identity on texts: "
+        "proved from the byte-level models as C01_over_wire (C17 reassembly + C19 own reply), the HTTP header layer "
+        "(http.client / http.server, CPython) is represented by the read/chunk schedule; validated here over real TCP "
+        "and Unix sockets with bodies from 30 bytes to more than 10 MiB")
+    ctx.assumptions.append(
+        "the Backend laws are satisfiable: JRV.Lemmas.BackendInstance.godel is a Backend with both law fields proved "
+        "for all JSON-able values (C01_backend_exists); it is a witness, not CPython's json")
+
+
+def expand_sized(s, rig_spec):
+    """A sized scenario named by its label (see run_group), restricted to the listed ops."""
+    if "sized_ref" not in s:
+        return s
+    full = [x for x in sized_payloads(tuple(rig_spec), big=True) if x["long"] == s["sized_ref"]][0]
+    if s.get("ops") is not None:
+        full = dict(full, ops=[full["ops"][i] for i in s["ops"]])
+    return full
+
+
+def search(ctx):
+    """Search stage (a tie is broken and no monitor has fired): ONE more pass with the thorough rigs and budgets and
+    fresh seeds.  (The default of three such passes costs ten minutes and has never found what the first did not.)"""
+    import random
+    ctx.rng = random.Random("C01/%s/search" % ctx.seed)
+    saved = ctx.seed
+    try:
+        ctx.seed = "%s/search" % saved   # derive_rng labels depend on the seed: other scenarios than the first pass
+        run(ctx)
+    finally:
+        ctx.seed = saved
 
 
 def replay(payload):
@@ -1172,6 +1657,10 @@ def replay(payload):
     if len(rig_spec) == 2:
         rig_spec = rig_spec + ("std",)
     print("replaying scenario on rig %s/%s/%s: %s" % (rig_spec + (json.dumps(s)[:1500],)))
+    if "sized_ref" in s:
+        s = expand_sized(s, rig_spec)
+        print(" = sized payload %r (%d characters): ops %s" % (s["long"], len(dict(sized_values(True))[s["long"]]),
+                                                          [(op["op"], short(op.get("args") or op.get("jobs"), 80)) for op in s["ops"]]))
     tmpdir = tempfile.mkdtemp(prefix="verif-c01-")
     socket.setdefaulttimeout(WATCHDOG)
     try:
@@ -1184,7 +1673,7 @@ def replay(payload):
     finally:
         shutil.rmtree(tmpdir, ignore_errors=True)
     for op, rec in zip(s["ops"], records):
-        print(" op %s -> %s %r ; calls %r" % (op["op"], rec["outcome"][0], rec["outcome"][1], [(e[2], e[3]) for e in rec["log"]]))
+        print(" op %s -> %s %s ; calls %s" % (op["op"], rec["outcome"][0], short(rec["outcome"][1]), short([(e[2], e[3]) for e in rec["log"]])))
     msgs = monitor(s, records, hist)
     for m, _k in msgs:
         print("VIOLATION reproduced:", m[:600])
